@@ -108,15 +108,14 @@ func (ns *MapNamespace) Browse(bd *ua.BrowseDescription) *ua.BrowseResult {
 
 	}
 
-	refs := make([]*ua.ReferenceDescription, len(ns.Data))
+	refs := make([]*ua.ReferenceDescription, 0, len(ns.Data))
 
-	keyid := 0
 	for k := range ns.Data {
 		key := k
 		refid := ua.NewNumericNodeID(0, id.HasComponent)
 		expnewid := ua.NewStringExpandedNodeID(ns.id, key)
 
-		refs[keyid] = &ua.ReferenceDescription{
+		ref := &ua.ReferenceDescription{
 			ReferenceTypeID: refid,
 			IsForward:       true,
 			NodeID:          expnewid,
@@ -125,7 +124,11 @@ func (ns *MapNamespace) Browse(bd *ua.BrowseDescription) *ua.BrowseResult {
 			NodeClass:       ua.NodeClassVariable, // when support is added for nested maps, this will be NodeClassObject
 			TypeDefinition:  expnewid,
 		}
-		keyid++
+		// only return the references the client asked for (direction, reference type, node class)
+		if !suitableRef(ns.srv, bd, ref) {
+			continue
+		}
+		refs = append(refs, ref)
 	}
 
 	return &ua.BrowseResult{
